@@ -347,7 +347,7 @@ void RadioTap::send(PacketSender& sender, const NetworkInterface& iface) {
 #endif
 
 bool RadioTap::matches_response(const uint8_t* ptr, uint32_t total_sz) const {
-    if (sizeof(header_) < total_sz) {
+    if (total_sz < sizeof(header_)) {
         return false;
     }
     const radiotap_header* radio_ptr = (const radiotap_header*)ptr;
